@@ -54,6 +54,15 @@ CLAIMED.update({
     "C11": ("Hypothesis-generated pose pairs with relative rotation 1e-12..pi-1e-6 and s values concentrated at the ends; geometric oracle (fixed axis, angle proportional to s, linear translation) from reference axis-angle",
             EXPL + "trinterp, trinterp2, slerp, pose.interp and UnitQuaternion.interp are judged on endpoints, validity, linear translation, constant-rate rotation about the fixed axis along the arc taken, range errors, vector s and mutual agreement.",
             "reference axis_angle / Rodrigues in pbt/refs.py; antipodal pairs on the long arc excluded as the statement says (matrix routes: classified with the library's own r2q)", "4/C11"),
+    "C01": ("Hypothesis-generated (entry point, arguments) cases over a table of 53 constructor entry points + expression trees over library-built objects; validity-predicate oracle",
+            EXPL + "every public constructor of rotations, rigid motions and unit quaternions (base functions and classes) is called with angles biased to the special values (incl. many turns and 1e-12 neighbourhoods), axis lengths 1e-3..1e6, translations to 1e6, both units, every order, scalar and vector forms, and every element of every result (and of every node of random expression trees with *, /, inv, **, prod, interp, norm) is checked for orthonormality, determinant, last row and unit norm to 1e-9.",
+            "validity predicates in pbt/refs.py (NumPy); random constructors are seeded from the case", "4/C01"),
+    "C04": ("Hypothesis-generated motions near the quaternion-extraction branch points; round-trip, homomorphism and cross-class constructor agreement oracles evaluated through reference q2r / exp",
+            EXPL + "SO3, SE3, UnitQuaternion, Twist3 and UnitDualQuaternion (and the planar classes) are converted into each other and back, multiplied and inverted in each representation and compared as matrices to 1e-6, incl. q == -q, shared named constructors with all options, the three embeddings and random expression trees per representation.",
+            "reference q2r/expm in pbt/refs.py", "4/C04"),
+    "C19": ("Hypothesis-generated lines, planes, rigid motions and line pairs in general / parallel / intersecting / coincident position; elementary-geometry oracle from the defining data",
+            EXPL + "lines built by PQ, PointDir and Planes are judged on incidence, Pluecker constraint, principal point, projection, point(lambda), rigid transformation, equality, parallelism, common perpendicular, distance, plane intersection with its parameter, and plane membership, with residuals <= 1e-9 x data magnitude.",
+            "reference point-line geometry in the check; predicates with a tol argument receive a data-scaled tolerance; the ^ predicate is outside the statement", "4/C19"),
 })
 
 NOT_YET = {}
